@@ -914,7 +914,7 @@ class Analysis:
             self._fresh_params = out
         return self._fresh_params
 
-    def copy_direction(self, mac, dst_e, src_e, st, ne, line, strict=False):
+    def copy_direction(self, mac, dst_e, src_e, st, ne, line, strict=False, nterm=None):
         """R-OVERLAP (direction): MPN_COPY_DECR walks from the top limb down, so it is only right when the destination is not below
         the source inside one block; MPN_COPY_INCR the other way round.  A base pointer (PTR (x), nothing added) is the lowest address
         of its block: copying DOWN to a base pointer from a pointer that was advanced inside a block that may be the same one must
@@ -932,6 +932,12 @@ class Analysis:
                 if rd != rs and not self.may_alias(rd, rs, ne):
                     continue
                 delta = tconst(tadd(od, os_, -1)) if od is not None and os_ is not None and rd == rs else None
+                if nterm is not None and od is not None and os_ is not None:          # (if rd and rs are one variable their bases coincide)
+                    # both ranges lie in one block at known offsets: they are disjoint when the distance is at least the length
+                    # (moving the upper half of a block onto its lower half is a separate copy, whatever the direction)
+                    gap_up, gap_dn = tconst(tadd(tadd(os_, od, -1), nterm, -1)), tconst(tadd(tadd(od, os_, -1), nterm, -1))
+                    if (gap_up is not None and gap_up >= 0) or (gap_dn is not None and gap_dn >= 0):
+                        continue
                 bad = None
                 if want_decr and ((bd and not bs) or (delta is not None and delta < 0)):
                     bad = "below"
@@ -993,7 +999,10 @@ class Analysis:
                     return None
                 dst_e, src_e = strip_n(dst_e), strip_n(src_e)
             if dst_e is not None and src_e is not None:
-                self.copy_direction(mac, dst_e, src_e, st, ne, el["line"], strict="MPN_COPY" in el.get("m", []))
+                nt = slot.get("n")
+                if nt is not None:
+                    nt = tadd(nt, T(1))                  # __n = (n) - 1 in both forms
+                self.copy_direction(mac, dst_e, src_e, st, ne, el["line"], strict="MPN_COPY" in el.get("m", []), nterm=nt)
         if "dst" in slot and "n" in slot and not slot.get("done"):
             slot["done"] = True
             kind = self.INLINE_FILLS[mac]
